@@ -2801,22 +2801,17 @@ class Network(Cached):
         :return: Entry [i,j] is the betweenness of the link between i and j,
                  or 0 if i is not linked to j.
         """
-        #  Calculate link betweenness
-        link_betweenness = self.graph.edge_betweenness()
+        #  Calculate link betweenness (on the undirected version of the graph)
+        graph = self.graph.as_undirected() if self.directed else self.graph
+        link_betweenness = graph.edge_betweenness()
 
         #  Initialize
-        result, ecount = np.zeros((self.N, self.N)), 0
-
-        #  Get graph adjacency list
-        A_list = self.graph.get_adjlist()
+        result = np.zeros((self.N, self.N))
 
         #  Write link betweenness values to matrix
-        for i, Ai in enumerate(A_list):
-            for j in Ai:
-                #  Only visit links once
-                if i < j:
-                    result[i, j] = result[j, i] = link_betweenness[ecount]
-                    ecount += 1
+        for edge, value in zip(graph.es, link_betweenness):
+            i, j = edge.tuple
+            result[i, j] = result[j, i] = value
         return result
 
     def edge_betweenness(self):
